@@ -934,6 +934,10 @@ fn read_check_digest(
         overlay: if spec.post { Some(overlay) } else { None },
         bad: &bad,
         sparse: w.faults.iter().any(|f| matches!(f, Fault::Sparse)),
+        wrap_error: w.faults.iter().find_map(|f| match f {
+            Fault::WrapError { id } => Some(*id),
+            _ => None,
+        }),
     };
     let vals = view
         .key_range(essential_types::ContentAddress(c), spec.key.clone(), spec.count)
